@@ -552,7 +552,7 @@ pub fn classify(md: &str, _o: &Opts, p: &Parsed, _clause: &str, kind: &str, sp: 
     let mut chain = vec![idx];
     chain.extend(ancestors(p, idx));
     let kinds: Vec<&str> = chain.iter().map(|&i| p.nodes[i].kind).collect();
-    let group = if is_inline(kind) { "inline" } else { "block" };
+    let _group = if is_inline(kind) { "inline" } else { "block" };
 
     // empty source: no line exists, the document node cannot satisfy 1 <= line
     if lines.is_empty() {
@@ -564,7 +564,7 @@ pub fn classify(md: &str, _o: &Opts, p: &Parsed, _clause: &str, kind: &str, sp: 
         let top = if chain.len() >= 2 { chain[chain.len() - 2] } else { idx };
         let (a, b) = (p.nodes[top].sp.0.min(sp.0), p.nodes[top].sp.2.max(sp.2).max(sp.0));
         if line_span(&lines, a, b).iter().any(|l| l.contains('\0')) {
-            return format!("{}/nul-in-block", group);
+            return "nul-in-block".to_string();
         }
     }
 
@@ -579,7 +579,7 @@ pub fn classify(md: &str, _o: &Opts, p: &Parsed, _clause: &str, kind: &str, sp: 
                 // the fence must actually be closed in the source: a line of `>>>` at or after the node
                 let closed = lines.iter().skip(p.nodes[i].sp.0).any(|l| l.trim_start_matches(|c| c == ' ' || c == '>').is_empty() && l.contains(">>>"));
                 if closed {
-                    return format!("{}/unfinalized-below-multiline-block-quote", group);
+                    return "unfinalized-below-multiline-block-quote".to_string();
                 }
             }
         }
@@ -590,7 +590,7 @@ pub fn classify(md: &str, _o: &Opts, p: &Parsed, _clause: &str, kind: &str, sp: 
         let before = lines.iter().take(f.sp.0.saturating_sub(1)).filter(|l| l.contains(">>>")).count();
         let after = lines.iter().skip(f.sp.0).filter(|l| l.contains(">>>")).count();
         if before % 2 == 1 && after >= 1 {
-            return format!("{}/unfinalized-below-multiline-block-quote", group);
+            return "unfinalized-below-multiline-block-quote".to_string();
         }
     }
 
@@ -598,13 +598,13 @@ pub fn classify(md: &str, _o: &Opts, p: &Parsed, _clause: &str, kind: &str, sp: 
     for &i in &chain {
         let n = &p.nodes[i];
         if matches!(n.kind, "paragraph" | "heading" | "table") && starts_with_refdef(text_at(&lines, n.sp.0, n.sp.1)) {
-            return format!("{}/after-leading-reference-definition", group);
+            return "after-leading-reference-definition".to_string();
         }
         if n.kind == "table" {
             if let Some(ps) = prev_sibling(p, i) {
                 let q = &p.nodes[ps];
                 if q.kind == "paragraph" && starts_with_refdef(text_at(&lines, q.sp.0, q.sp.1)) {
-                    return format!("{}/after-leading-reference-definition", group);
+                    return "after-leading-reference-definition".to_string();
                 }
             }
         }
@@ -654,14 +654,14 @@ pub fn classify(md: &str, _o: &Opts, p: &Parsed, _clause: &str, kind: &str, sp: 
             let rcont = ancestors(p, i).into_iter().find(|&a| matches!(p.nodes[a].kind, "block_quote" | "footnote_definition" | "alert" | "multiline_block_quote"));
             let beyond = rcont.map_or(false, |a| p.nodes[a].sp.2 < n.sp.2);
             if in_container && (!is_fence || beyond) {
-                return format!("{}/fenced-block-closed-by-container-end", if is_inline(kind) { "inline" } else { "block" });
+                return "fenced-block-closed-by-container-end".to_string();
             }
         }
     }
 
     // description lists are documented as unreliable; their paragraphs are re-parented without being finalized
     if kinds.iter().any(|k| k.starts_with("description_")) {
-        return format!("{}/inside-description-list", group);
+        return "inside-description-list".to_string();
     }
 
     // inline-level classes
@@ -681,7 +681,7 @@ pub fn classify(md: &str, _o: &Opts, p: &Parsed, _clause: &str, kind: &str, sp: 
                     let after = &rest[k + 2..];
                     let label_end = after.find(']');
                     if label_end.map_or(true, |e| !after[..e].chars().all(|c| c.is_ascii_alphanumeric() || c == '-' || c == '_')) {
-                        return "inline/footnote-label-not-plain-text".into();
+                        return "footnote-label-not-plain-text".into();
                     }
                     rest = after;
                 }
@@ -714,7 +714,7 @@ pub fn classify(md: &str, _o: &Opts, p: &Parsed, _clause: &str, kind: &str, sp: 
                     };
                     let first = pre(b.sp.0);
                     if (b.sp.0..=c.sp.2.min(lines.len())).any(|l| pre(l) != first) && c.sp.0 > b.sp.0 {
-                        return "inline/multi-line-literal-span-uneven-prefixes".into();
+                        return "multi-line-literal-span-uneven-prefixes".into();
                     }
                 }
             }
@@ -723,7 +723,7 @@ pub fn classify(md: &str, _o: &Opts, p: &Parsed, _clause: &str, kind: &str, sp: 
         for &i in &chain {
             let n = &p.nodes[i];
             if n.kind == "wikilink" && !text_at(&lines, n.sp.0, n.sp.1).contains("]]") {
-                return "inline/wikilink-spans-lines".into();
+                return "wikilink-spans-lines".into();
             }
         }
         // link / image whose destination, title or reference label part spans a line break
@@ -731,7 +731,7 @@ pub fn classify(md: &str, _o: &Opts, p: &Parsed, _clause: &str, kind: &str, sp: 
             let n = &p.nodes[i];
             if n.kind == "link" || n.kind == "image" {
                 if link_tail_spans_lines(&lines, p, i) {
-                    return "inline/link-tail-spans-lines".into();
+                    return "link-tail-spans-lines".into();
                 }
             }
         }
@@ -744,14 +744,14 @@ pub fn classify(md: &str, _o: &Opts, p: &Parsed, _clause: &str, kind: &str, sp: 
         if let Some(ri) = chain.iter().position(|&i| p.nodes[i].kind == "table_row") {
             let r = &p.nodes[chain[ri]];
             if r.sp.0 >= 1 && r.sp.0 <= lines.len() && lines[r.sp.0 - 1].contains("\\|") {
-                return format!("{}/table-row-with-escaped-pipe", group);
+                return "table-row-with-escaped-pipe".to_string();
             }
         }
         // header row that continues paragraph text (the preface is split off into a paragraph of its own)
         if let Some(ps) = prev_sibling(p, chain[ti]) {
             let q = &p.nodes[ps];
             if q.kind == "paragraph" && q.sp.2 + 1 >= t.sp.0 {
-                return format!("{}/table-header-after-paragraph-lines", group);
+                return "table-header-after-paragraph-lines".to_string();
             }
         }
         // cells
@@ -760,11 +760,11 @@ pub fn classify(md: &str, _o: &Opts, p: &Parsed, _clause: &str, kind: &str, sp: 
             if let Some(ps) = prev_sibling(p, chain[ci]) {
                 let q = &p.nodes[ps];
                 if c.nchildren == 0 && q.sp.3 == c.sp.1 && q.sp.2 == c.sp.0 {
-                    return format!("{}/autocompleted-table-cell", group);
+                    return "autocompleted-table-cell".to_string();
                 }
             }
             if c.nchildren == 0 && c.sp.0 == c.sp.2 && c.sp.1 == c.sp.3 + 1 {
-                return format!("{}/empty-table-cell", group);
+                return "empty-table-cell".to_string();
             }
         }
         if let Some(ri) = chain.iter().position(|&i| p.nodes[i].kind == "table_row") {
@@ -775,7 +775,7 @@ pub fn classify(md: &str, _o: &Opts, p: &Parsed, _clause: &str, kind: &str, sp: 
                 let k = (t.sp.1 - 1).min(hl.len());
                 let same = rl.len() >= k && rl[..k] == hl[..k] && rl.get(k).map_or(false, |c| *c != b' ' && *c != b'\t');
                 if !same {
-                    return format!("{}/table-row-prefix-differs-from-header", group);
+                    return "table-row-prefix-differs-from-header".to_string();
                 }
             }
         }
@@ -790,7 +790,7 @@ pub fn classify(md: &str, _o: &Opts, p: &Parsed, _clause: &str, kind: &str, sp: 
                     l.bytes().take_while(|c| *c == b' ' || *c == b'\t' || *c == b'>').any(|c| c == b'\t')
                 });
                 if tabbed {
-                    return format!("{}/tab-in-line-prefix", group);
+                    return "tab-in-line-prefix".to_string();
                 }
             }
         }
@@ -892,6 +892,7 @@ pub fn judge(which: Which, o: &Opts, md: &str, p: &Parsed, resp: &str) -> Result
                 "line-range" | "start-col" | "end-col" | "start-after-end" => "in-range",
                 c => c,
             };
+            let merged = if which == Which::C12 { if merged == "text-literal" { "text" } else { "delims" } } else { merged };
             let ck = format!("{}-{}", if which == Which::C11 { "sp" } else { "slice" }, merged);
             Ok(Some((
                 ck,
@@ -981,6 +982,7 @@ pub fn shrink(which: Which, o: &Opts, md: &str, kind: &str, sig: Option<&str>) -
 
 pub fn corpus_docs() -> Vec<&'static str> {
     vec![
+        "",
         "a",
         "hello *world* between *wo\nrld* after",
         "stuff before  \nstuff after\n\nstuff before\\\nstuff after\n",
